@@ -95,6 +95,9 @@ class PyTarget:
             return None
         return None
 
+    def initial_keys(self):
+        return set(self.nm.get_global_ids())
+
     def legal(self, ident):
         for comp in ident.split("."):
             if not comp.isidentifier():
@@ -140,6 +143,9 @@ class FTarget:
             return self.nm.name_refcount(name)
         raise ValueError(op)
 
+    def initial_keys(self):
+        return set(iter(self.nm.global_map))
+
     def legal(self, ident):
         for comp in ident.split("%"):
             if not F_IDENT.match(comp):
@@ -166,6 +172,9 @@ class FTarget:
 def run_sequence(target_cls, seq):
     """Runs the lookups on a fresh manager; returns (violation or None, final table, n_transitions)"""
     tgt = target_cls()
+    r = stale_probe(target_cls, tgt)
+    if r is not None:
+        return r, {}, 0
     table = {}
     n_unique = 0
     for i, op in enumerate(seq):
@@ -210,6 +219,20 @@ def run_sequence(target_cls, seq):
                 return ("unstable", "%s mapped to %r, after %s it maps to %r" % (op2, id2, op, again),
                         [op2, op]), table, i
     return None, table, len(seq)
+
+
+def stale_probe(target_cls, fresh=None):
+    """a freshly constructed manager knows only the predefined keys, whatever earlier manager objects mapped"""
+    if fresh is None:
+        first = target_cls()
+        first.lookup(("var", "<p>verif_probe"))
+        first.lookup(("var", "<state>verif_probe"))
+        fresh = target_cls()
+    extra = fresh.initial_keys() - {"<t>", "<dt>"}
+    if extra:
+        return ("stale-state", "a freshly constructed name manager already knows %s (state shared with earlier "
+                "manager objects)" % sorted(extra)[:5], [("var", "<p>verif_probe")])
+    return None
 
 
 def canon_table(table):
@@ -297,6 +320,8 @@ def run_shard(desc, acc):
             acc.traces += 1
             if r is not None:
                 sub, detail, culprits = r
+                if sub == "stale-state":
+                    culprits = [("var", "<p>verif_probe")]
                 sig = sig_of(sub, tname, culprits)
                 if sig not in reported:
                     reported.add(sig)
@@ -403,6 +428,9 @@ def replay(witness):
     tname = witness["target"]
     tcls = PyTarget if tname == "python" else FTarget
     seq = [tuple(o[:2]) for o in witness["sequence"]]
+    if seq and seq[0][1] == "<p>verif_probe" or witness.get("stale"):
+        r = stale_probe(tcls)
+        return [] if r is None else [{"sub": r[0], "sig": sig_of(r[0], tname, r[2]), "witness": witness, "detail": r[1]}]
     if witness.get("compile"):
         acc = kernel.Acc()
         run_compile_validation({"target": tname}, acc, tcls)
